@@ -6,7 +6,7 @@ import BumpProof.Lemmas.MemWrite
 
 set_option linter.unusedSimpArgs false
 
-namespace Arena
+namespace Arena.Mem
 open Rs
 
 theorem liftM_ok {α} {x : Rs.M α} {v : α} (h : liftM x = .ok v) : x = .ok v := by
@@ -97,7 +97,7 @@ theorem MemExt.of_chunks_eq {s s' : State} (h : s'.chunks = s.chunks) : MemExt s
   MemExt.of_eq (by unfold memOf; rw [h])
 
 theorem MemExt.of_chunks_append {s s' : State} {l : List Chunk} (h : s'.chunks = s.chunks ++ l) : MemExt s s' :=
-  ⟨l.map Chunk.cell, by unfold memOf; rw [h, List.map_append]⟩
+  ⟨l.map Chunk.memCell, by unfold memOf; rw [h, List.map_append]⟩
 
 theorem newChunk_memExt {cfg : Cfg} {s s' : State} {size : Nat} {r : Except AErr Nat}
     (h : newChunk cfg s size = .ok (s', r)) : MemExt s s' := by
@@ -149,7 +149,7 @@ theorem memOf_set_resetPos (cfg : Cfg) (s : State) (j : Nat) (c : Chunk) (hc : s
     subst hjk
     simp only [List.length_map, List.getElem?_map, hc, Option.map_some]
     have : j < s.chunks.length := (List.getElem?_eq_some_iff.mp hc).1
-    simp [this, Chunk.resetPos, Chunk.cell]
+    simp [this, Chunk.resetPos, Chunk.memCell]
   · rfl
 
 theorem walkNext_memOf {cfg : Cfg} {k : Kind} {L : Layout} {h : Hints} (fuel : Nat) :
@@ -369,4 +369,4 @@ theorem reset_readByte (cfg : Cfg) (s : State) (hd : ChunksDisjoint s.chunks) {a
       rfl
   · rfl
 
-end Arena
+end Arena.Mem
